@@ -62,6 +62,13 @@ def make_case(rng, kind):
     t = case['types']['t0']
     if rng.random() < 0.5:
         gi.random_setup_options(rng, case)
+    # the power file may be rescaled at set-up (scaling factor, normalisation to a total power)
+    if case.get('power'):
+        u = rng.random()
+        if u < 0.35:
+            case['power']['scaling'] = round(rng.uniform(0.5, 1.5), 3)
+        elif u < 0.6:
+            case['power']['total_power'] = round(rng.uniform(2e4, 2e5), 1)
     # boundary conditions: flow rate, outlet temperature or temperature rise (the latter two make set-up estimate a flow rate)
     for a in case['assignment']:
         u = rng.random()
